@@ -2,7 +2,7 @@
 //!   h_c06 gen <nfiles> <nmut> <nsoup> <ngram>     request file on stdout (every choice from VERIF_SEED)
 //!   h_c06 run [file]                              answer requests, one response line per request line
 //! requests (text as lower-case hex of its UTF-8 bytes, `-` = empty):
-//!   sema <text>   -> ok kinds=<k> warn=<w>
+//!   sema <text> [limit_s] -> ok kinds=<k> warn=<w> diag=<id>:<count>,...      (kinds of the warnings)
 //!                  | errors <n> in-range kinds=<k> warn=<w> noloc=<m> diag=<id>:<count>,... dump=<ok|EMPTY>
 //!                  | errors <n> OUT-OF-RANGE <file>:<start>+<len>/<filelen> ...
 //!                  | !flag <success> <nerrors>          (`check_program`'s flag != absence of errors)
@@ -147,9 +147,8 @@ fn sema_line(text: &str) -> String {
     {
         let d = sa.diag.borrow();
         for (is_err, e) in d.errors().iter().map(|e| (true, e)).chain(d.warnings().iter().map(|e| (false, e))) {
-            if is_err {
-                *hist.entry(fnv32(e.desc.message)).or_insert(0) += 1;
-            }
+            let _ = is_err;
+            *hist.entry(fnv32(e.desc.message)).or_insert(0) += 1;
             match (e.file_id, e.span) {
                 (Some(fid), Some(span)) => {
                     let file = sa.file(fid);
@@ -164,8 +163,10 @@ fn sema_line(text: &str) -> String {
             }
         }
     }
+    let diag = hist.iter().map(|(k, v)| format!("{:08x}:{}", k, v)).collect::<Vec<_>>().join(",");
+    let diag = if diag.is_empty() { "-".to_string() } else { diag };
     if nerr == 0 && out_of_range.is_empty() {
-        return format!("ok kinds={} warn={}", kinds, nwarn);
+        return format!("ok kinds={} warn={} diag={}", kinds, nwarn, diag);
     }
     if !out_of_range.is_empty() {
         return format!("errors {} OUT-OF-RANGE {}", nerr, out_of_range.join(" "));
@@ -173,14 +174,13 @@ fn sema_line(text: &str) -> String {
     // the text the compile command prints (message formatting + line/column of every diagnostic)
     let dump = sa.diag.borrow_mut().dump_to_string(&sa, true);
     let dump_ok = dump.contains("error") && dump.lines().count() >= nerr;
-    let diag = hist.iter().map(|(k, v)| format!("{:08x}:{}", k, v)).collect::<Vec<_>>().join(",");
     format!(
         "errors {} in-range kinds={} warn={} noloc={} diag={} dump={}",
         nerr,
         kinds,
         nwarn,
         noloc,
-        if diag.is_empty() { "-".to_string() } else { diag },
+        diag,
         if dump_ok { "ok" } else { "EMPTY" }
     )
 }
@@ -192,7 +192,7 @@ fn parse_only(text: &str) -> Result<(), String> {
 }
 
 /// Runs `f` in a worker thread with a large stack and a time limit.
-fn in_worker(f: impl FnOnce() -> String + Send + 'static) -> String {
+fn in_worker_limit(limit_s: u64, f: impl FnOnce() -> String + Send + 'static) -> String {
     let (tx, rx) = mpsc::channel();
     let h = std::thread::Builder::new().stack_size(STACK).spawn(move || {
         let r = match guarded(f) {
@@ -205,7 +205,7 @@ fn in_worker(f: impl FnOnce() -> String + Send + 'static) -> String {
         Ok(h) => h,
         Err(_) => return "!nothread".to_string(),
     };
-    match rx.recv_timeout(Duration::from_secs(TIME_LIMIT_S)) {
+    match rx.recv_timeout(Duration::from_secs(limit_s)) {
         Ok(s) => {
             let _ = h.join();
             s
@@ -213,6 +213,10 @@ fn in_worker(f: impl FnOnce() -> String + Send + 'static) -> String {
         // the worker is abandoned (it keeps running until the process exits)
         Err(_) => "!timeout".to_string(),
     }
+}
+
+fn in_worker(f: impl FnOnce() -> String + Send + 'static) -> String {
+    in_worker_limit(TIME_LIMIT_S, f)
 }
 
 fn sema_guarded(text: &str) -> String {
@@ -326,7 +330,14 @@ fn respond(line: &str) -> String {
         Err(_) => return "!notutf8".to_string(),
     };
     match p[0] {
-        "sema" => sema_guarded(&text),
+        "sema" => match p.get(2).and_then(|s| s.parse::<u64>().ok()) {
+            // explicit time limit: used to re-examine a `!timeout` answer on a loaded machine
+            Some(limit) => {
+                let t = text.clone();
+                in_worker_limit(limit, move || sema_line(&t))
+            }
+            None => sema_guarded(&text),
+        },
         "parse" => {
             let t = text.clone();
             in_worker(move || match parse_only(&t) {
@@ -615,6 +626,35 @@ fn gen(nfiles: usize, nmut: usize, nsoup: usize, ngram: usize) {
         "fn f(x: Float64) { match x { 1.0 => 1, _ => 2 } } fn g(x: Char) { match x { 'a' => 1, 'a' => 2, _ => 3 } } fn h(x: String) { match x { \"a\" => 1 } }",
         "enum E { A(Int64, Bool), B } fn f(e: E) { match e { E::A(.., true) => 1, E::A(false, ..) => 2, E::B => 3 } }", "enum E { A { x: Int64, y: Bool } } fn f(e: E) { match e { E::A(x, ..) => 1, E::A(y = true, x = 1) => 2, E::A(z = 1) => 3, E::A(x = 1, x = 2) => 4 } }",
         "class C { x: Int64 } fn f(c: C) { match c { C(x) => x, C(y = 1) => 2 } } struct S(Int64) fn g(s: S) { match s { S(1, 2) => 1, S => 2, S(..) => 3 } }",
+        "fn f(x: Option[Int64]) { let Some(y) = x else { return; }; let z = 1 else { return; }; let Some(w) = x else { 1 }; }",
+        "struct S { x: Int64 } impl S { mutating fn inc() { self.x = self.x + 1; } fn g() { self.x = 2; } } fn f() { let s = S(x = 1); s.inc(); let mut t = S(x = 1); t.inc(); s.x = 3; }",
+        "fn f(x: Int64) { let r = ref x; let m = ref mut x; let l = || r; } fn g(): ref Int64 { 1 } fn h(): ref Int64 { let y = 1; ref y }",
+        "struct S { x: Int64 } impl S { fn f(): Int64 { let l = ||: Int64 { self.x }; l() } fn g(self: ref S) {} }",
+        "const X: Int64 = 1; fn X() {} const Y: Int64 = 2; class Y const Z: Int64 = 3; const Z: Bool = true;",
+        "fn f(a: Int64) { let a = a; fn a() {} } fn g[T](T: Int64) {} class C[T] { T: Int64 } fn h[T]() { let T = 1; }",
+        "trait I { type Item; } fn f(x: I[Item = Int64, Item = Bool]) {} fn g(x: I[Item = Int64, Int64]) {} fn h[T: I[Item = Int64, Item = Int64]]() {} fn k[T: I[Nope = Int64]]() {}",
+        "trait A { type X; } trait B { type X; } fn f[T: A + B](): T::X { } fn g[T: A](x: T::X::X) {} fn h[T: A + A]() {}",
+        "enum E { A { x: Int64, y: Int64 } } fn f(e: E) { match e { E::A(x = 1, 2) => 1, E::A(.., x) => 2, E::A(.., x = 3) => 3, E::A(x, y, z) => 4 } }",
+        "class C { x: Int64, y: Int64 } fn f(c: C) { match c { C(.., x) => 1, C(x = a, ..) => a, C(..) => 3 } let C(x, y) = c; let C(q) = c; }",
+        "fn f() { 0x; 0b; 1__; 0xfffffffffffffffffffff; 1.0e; 1_i32; 0b12; 0xgg; 1e; 1.5f; 1.5f3; 12u64; 1i8; }",
+        "mod m { fn p() {} pub fn q() {} mod n { pub fn r() {} } pub mod o { fn s() {} } } use m::p; use m::q; use m::n::r; use m::o::s; use package::m::o; fn main() { p(); q(); }",
+        "fn main() { return 1; } fn g(): Int64 { return; } fn h() { let f = ||: Int64 { return true; }; }",
+        "fn f(x: Int64): Int64 { match x { y => y, _ => 0 } } fn g(x: (Int64, Bool)) { match x { (a, a) => a, (1, b) | (b, true) => 2 } } fn h(x: Option[Int64]) { match x { Some(a) | None => 1 } }",
+        "fn f[T](): T { T::default() } fn g[T: std::traits::Default + std::traits::Zero](): T { T::default(); T::zero(); T::nope() }",
+        "fn f() { let v = Vec[Int64]::new(); v.push(1).foo; v.size = 3; v.size() = 3; Vec[Int64]::new = 1; std::Vec = 2; }",
+        "use std::string::Stringable; fn f[T: Stringable](x: T): String { x.to_string() } fn g() { f[Int64](1); f[()](()); f[(Int64, Int64)]((1, 2)); f(|| 1); }",
+        "@Test fn t(x: Int64) {} @Test fn u(): Int64 { 1 } fn main(args: Array[String]) {} ",
+        "fn main() {} fn main() {} mod main {} ",
+        "impl[T] std::traits::Default for T { static fn default(): T { std::unreachable() } }",
+        "impl[T: std::traits::Default] std::traits::Default for Vec[T] { static fn default(): Vec[T] { Vec[T]::new() } }",
+        "trait T { fn f(): Self; } impl T for Int64 { fn f(): Int64 { self } } impl T for Bool { fn f(): Self { true } } fn g(x: T) { x.f(); }",
+        "trait T { static fn make(): Self; } fn g[X: T](): X { X::make() } fn h() { g[Int64](); T::make(); }",
+        "class A { a: B } class B { b: A } struct C { c: D } struct D { d: C } struct E { e: Option[E] } struct F(F) enum G { V(G) }",
+        "enum E { A, B } impl E { fn f(): Int64 { match self { E::A => 1 } } } fn g() { E::A.f(); E::f(E::B); E::C.f(); }",
+        "fn f() { let x: Int64; x = 1; let y: Int64; y; let mut z: Int64; if true { z = 1; } z; }",
+        "fn f(x: Int64, y: Int64 = 1) {} fn g() { f(1); f(y = 2, x = 1); f(1, 2, 3); f(x = 1, 2); }",
+        "fn f(args: Int64...) {} fn g() { f(); f(1); f(1, 2, 3); f(true); f(args = 1); }",
+        "fn f() { let a = Array[Int64]::new(); a(0) = 1; a(0)(1); a(true); a(0, 1); a.size(1); Array::new(); Array[]::new(); Array[Int64, Int64]::new(); }",
     ];
     for t in fixed {
         em.text("fixed", t);
